@@ -54,6 +54,16 @@ PER(15, 3, 9);
 constexpr int NP   = 16;
 constexpr int CORE = 10;
 
+// The instantiation table is split over C12_NPARTS translation units (same source, -DC12_PART=k,
+// compiled in parallel by props/C12/pcxx.py); part 0 also holds run_case and main.
+#ifndef C12_NPARTS
+    #define C12_NPARTS 1
+#endif
+#ifndef C12_PART
+    #define C12_PART 0
+#endif
+constexpr bool mine(int i, int j) { return (i * 5 + j) % C12_NPARTS == C12_PART; }
+
 constexpr i64 cgcd(i64 a, i64 b) { return b == 0 ? a : cgcd(b, a % b); }
 constexpr bool fits64(i128 x) { return x >= std::numeric_limits<i64>::min() && x <= std::numeric_limits<i64>::max(); }
 
@@ -133,12 +143,12 @@ static void ref1(Out& ref, i128 stdv, i128 exact)
 enum OpId {
     OP_CAST, OP_FLOOR, OP_CEIL, OP_ROUND, OP_RND4, OP_TP_CAST, OP_TP_RND4,
     OP_CONV, OP_TP_CONV, OP_PLUS, OP_MINUS, OP_DIV, OP_MOD, OP_CMP, OP_TP_CMP, OP_CTYPE, OP_PERIOD, OP_UNARY,
-    OP_TP_UNARY, OP_COMPOUND, OP_TP_COMPOUND, OP_ABS, OP_LIMITS, OP_FCAST_IF, OP_FCONV_IF, OP_NONE
+    OP_TP_UNARY, OP_COMPOUND, OP_TP_COMPOUND, OP_ABS, OP_LIMITS, OP_FCAST_IF, OP_FCONV_IF, OP_SCALAR, OP_TP_ARITH, OP_NONE
 };
 static OpId op_id(std::string const& s)
 {
     static char const* const names[] = {"cast", "floor", "ceil", "round", "rnd4", "tp_cast", "tp_rnd4", "conv", "tp_conv", "plus", "minus", "div", "mod", "cmp", "tp_cmp", "ctype", "period",
-        "unary", "tp_unary", "compound", "tp_compound", "abs", "limits", "fcast_if", "fconv_if"};
+        "unary", "tp_unary", "compound", "tp_compound", "abs", "limits", "fcast_if", "fconv_if", "scalar", "tp_arith"};
     for (int k = 0; k < OP_NONE; ++k) {
         if (s == names[k]) { return static_cast<OpId>(k); }
     }
@@ -357,6 +367,59 @@ struct Ops {
             ref.tok("ok").b(a == b).b(a != b).b(a < b).b(a <= b).b(a > b).b(a >= b);
             return true;
         }
+        case OP_SCALAR: {
+            // duration<R1, P1> op scalar of type R2: d * s, s * d, d / s, d % s  [time.duration.nonmember]
+            auto c = static_cast<R1>(in.num());
+            auto x = static_cast<R2>(in.num());
+            using CRT = std::common_type_t<R1, R2>;
+            if constexpr (requires(E1 d, R2 v) { d * v; v * d; d / v; d % v; }) {
+                E1 const d{c};
+                static_assert(std::is_same_v<decltype(d * x), ec::duration<CRT, EP1>>);
+                static_assert(std::is_same_v<decltype(x * d), ec::duration<CRT, EP1>>);
+                static_assert(std::is_same_v<decltype(d / x), ec::duration<CRT, EP1>>);
+                static_assert(std::is_same_v<decltype(d % x), ec::duration<CRT, EP1>>);
+                impl.tok("ok").num((d * x).count()).num((x * d).count()).num((d / x).count()).num((d % x).count());
+            } else {
+                impl.tok("illformed");
+            }
+            S1 const d{c};
+            static_assert(std::is_same_v<decltype(d * x), sc::duration<CRT, SP1>>);
+            ref.tok("ok").num((d * x).count()).num((x * d).count()).num((d / x).count()).num((d % x).count());
+            return true;
+        }
+        case OP_TP_ARITH: {
+            // tp + d, d + tp, tp - d, tp - tp  [time.point.nonmember]
+            auto c1 = static_cast<R1>(in.num());
+            auto c2 = static_cast<R2>(in.num());
+            if constexpr (requires(ET1 t, E2 d, ET2 u) { t + d; d + t; t - d; t - u; }) {
+                ET1 const t{E1{c1}};
+                E2 const d{c2};
+                ET2 const u{d};
+                using ECD = etl::common_type_t<E1, E2>;
+                static_assert(std::is_same_v<decltype(t + d), ec::time_point<ec::system_clock, ECD>>);
+                static_assert(std::is_same_v<decltype(d + t), ec::time_point<ec::system_clock, ECD>>);
+                static_assert(std::is_same_v<decltype(t - d), ec::time_point<ec::system_clock, ECD>>);
+                static_assert(std::is_same_v<decltype(t - u), ECD>);
+                impl.tok("ok")
+                    .num((t + d).time_since_epoch().count())
+                    .num((d + t).time_since_epoch().count())
+                    .num((t - d).time_since_epoch().count())
+                    .num((t - u).count());
+            } else {
+                impl.tok("illformed");
+            }
+            ST1 const t{S1{c1}};
+            S2 const d{c2};
+            ST2 const u{d};
+            ref.tok("ok")
+                .num((t + d).time_since_epoch().count())
+                .num((d + t).time_since_epoch().count())
+                .num((t - d).time_since_epoch().count())
+                .num((t - u).count());
+            i128 ex = c1 * X.f1() + c2 * X.f2(), exm = c1 * X.f1() - c2 * X.f2();
+            if ((t + d).time_since_epoch().count() != ex || (t - u).count() != exm) { ref.tok("!exact"); }
+            return true;
+        }
         case OP_CTYPE: {
             using EC = etl::common_type_t<E1, E2>;
             using SC = std::common_type_t<S1, S2>;
@@ -495,7 +558,7 @@ constexpr Entry make_entry()
 {
     constexpr int w1 = (RC == 1 || RC == 2) ? 32 : 64;
     constexpr int w2 = (RC == 1 || RC == 3) ? 32 : 64;
-    if constexpr (enabled(I, J, RC) && factor_ok<I, J>()) {
+    if constexpr (enabled(I, J, RC) && mine(I, J) && factor_ok<I, J>()) {
         return Entry{&Ops<I, J, RC>::run, Per<I>::n, Per<I>::d, Per<J>::n, Per<J>::d, w1, w2};
     } else {
         return Entry{nullptr, Per<I>::n, Per<I>::d, Per<J>::n, Per<J>::d, w1, w2};
@@ -509,9 +572,57 @@ static std::vector<Entry> make_table(std::index_sequence<K...>)
         static_cast<int>(K % 4)>()...};
 }
 
+#define C12_CAT2(a, b) a##b
+#define C12_CAT(a, b) C12_CAT2(a, b)
+std::vector<Entry> C12_CAT(c12_table_part_, C12_PART)() { return make_table(std::make_index_sequence<NP * NP * 4>{}); }
+
+#if C12_PART == 0
+    #if C12_NPARTS > 1
+std::vector<Entry> c12_table_part_1();
+    #endif
+    #if C12_NPARTS > 2
+std::vector<Entry> c12_table_part_2();
+    #endif
+    #if C12_NPARTS > 3
+std::vector<Entry> c12_table_part_3();
+    #endif
+    #if C12_NPARTS > 4
+std::vector<Entry> c12_table_part_4();
+    #endif
+    #if C12_NPARTS > 5
+std::vector<Entry> c12_table_part_5();
+    #endif
+    #if C12_NPARTS > 6
+        #error "at most 6 parts"
+    #endif
+
 static std::vector<Entry> const& table()
 {
-    static std::vector<Entry> const t = make_table(std::make_index_sequence<NP * NP * 4>{});
+    static std::vector<Entry> const t = [] {
+        auto all   = c12_table_part_0();
+        auto merge = [&all](std::vector<Entry> const& p) {
+            for (std::size_t k = 0; k < all.size(); ++k) {
+                if (p[k].run != nullptr) { all[k].run = p[k].run; }
+            }
+        };
+        (void)merge;
+    #if C12_NPARTS > 1
+        merge(c12_table_part_1());
+    #endif
+    #if C12_NPARTS > 2
+        merge(c12_table_part_2());
+    #endif
+    #if C12_NPARTS > 3
+        merge(c12_table_part_3());
+    #endif
+    #if C12_NPARTS > 4
+        merge(c12_table_part_4());
+    #endif
+    #if C12_NPARTS > 5
+        merge(c12_table_part_5());
+    #endif
+        return all;
+    }();
     return t;
 }
 
@@ -577,3 +688,4 @@ bool vh::run_case(std::string const& op, Toks& in, Out& impl, Out& ref)
 }
 
 VERIF_MAIN()
+#endif // C12_PART == 0
